@@ -175,7 +175,7 @@ func CheckC07(r *Run) int {
 			bads = append(bads, o)
 		}
 	}}
-	deep := r.Tier != "quick"
+	deep := true // two-byte names (one can be a prefix of the other) are explored in both tiers since the fourth round
 	// twoNames: names of one symbolic byte, in the thorough tier optionally followed by a second symbolic byte over "xy"
 	// (so that one name can be a proper prefix of the other). It returns the name ropes and a function that turns a
 	// legality predicate over concrete names into the expected-verdict term.
